@@ -125,7 +125,7 @@ fn run(input: RunInput) -> ScenFuture {
         let mut closed = false;
         let mut held = Vec::new();
         for _ in 0..n_ops {
-            let kind = r.gen_range(0..15);
+            let kind = r.gen_range(0..18);
             kinds.push(kind);
             let good = good_request(["/echo", "/svc/a", "/p/7"][r.gen_range(0..3)], b"hello-hostile");
             let mut outcome = "-";
@@ -264,6 +264,49 @@ fn run(input: RunInput) -> ScenFuture {
                             }
                             Err(_) => {}
                         }
+                    }
+                }
+                15 | 16 => {
+                    // a well-formed request carrying a hostile / odd `timeout` header; must be answered
+                    // (normally or with RequestTimeout), never hurt the network
+                    let t = ["0", "1", "999", "1000000", "18446744073709551615", "18446744073709551616", "abc", "-1", " 5 ", ""][r.gen_range(0..10)];
+                    if let Ok((mut tx, mut rx)) = open_bi(&c).await {
+                        let hdrs = vec![("timeout".to_string(), t.to_string())];
+                        let bytes = wire::encode_request(1, if kind == 15 { "/echo" } else { "/slow" }, &hdrs, b"t");
+                        if kind == 16 {
+                            // ... sent slowly: a pause inside the request
+                            let cut = r.gen_range(1..bytes.len());
+                            let _ = tx.write_all(&bytes[..cut]).await;
+                            sleep_us(r.gen_range(1_000..400_000)).await;
+                            let _ = tx.write_all(&bytes[cut..]).await;
+                        } else {
+                            let _ = tx.write_all(&bytes).await;
+                        }
+                        let _ = tx.finish();
+                        match read_all(&mut rx, 20_000).await {
+                            Ok(b) => match wire::decode_response(&b) {
+                                Ok(d) if d.status == Some(200) || d.status == Some(408) => outcome = "answered",
+                                other => {
+                                    if !lossy {
+                                        w.violate("request-with-odd-timeout-header-not-answered", format!("timeout={t:?}"), format!("{other:?}"));
+                                    }
+                                }
+                            },
+                            Err(e) => {
+                                if !lossy {
+                                    w.violate("request-with-odd-timeout-header-not-answered", format!("timeout={t:?}"), e);
+                                }
+                            }
+                        }
+                    }
+                }
+                17 => {
+                    // a well-formed request with a large, odd header map
+                    if let Ok((mut tx, mut rx)) = open_bi(&c).await {
+                        let hdrs: Vec<(String, String)> = (0..r.gen_range(0..40)).map(|i| (format!("{}{i}", ["", "timeout", "content-type", "status-message", "\u{0}"][r.gen_range(0..5)]), "v".repeat(r.gen_range(0..300)))).collect();
+                        let _ = tx.write_all(&wire::encode_request(1, "/echo", &hdrs, b"h")).await;
+                        let _ = tx.finish();
+                        let _ = read_all(&mut rx, 5_000).await;
                     }
                 }
                 10 => {
